@@ -4,6 +4,8 @@ import re
 from cv import err, flow, pair, rules
 from cv.rules import events_of, order_after_success
 
+from props import errscope
+
 TITLE = "Storage errors never make the archive record wrong content or a false success"
 TECHNIQUE = 'static analysis: paired-state dataflow (buffer/queue), error-discipline classification of storage results over the call graph, dominance'
 EXPLANATION = (
@@ -90,7 +92,7 @@ def run(ck, w):
             if s.fate in ("swallowed", "panicked", "logged"):
                 k1 = (b.root, callee, s.detail)
                 k2 = (b.root, callee, None)
-                if k1 in ERR_ALLOWED or k2 in ERR_ALLOWED:
+                if k1 in ERR_ALLOWED or k2 in ERR_ALLOWED or errscope.allowed_kind_conversion(s):
                     continue
                 bad.append(s)
             elif s.fate == "reported" and (b.root, callee, None) not in ERR_ALLOWED and b.root not in ("backup::backup",):
